@@ -34,6 +34,10 @@ type program struct {
 	ErrOK  bool     `json:"err,omitempty"` // the program is expected to end with an error (and no panic)
 	Bound  int      `json:"bound"`
 	Stages int      `json:"stages"`
+	// LockPoints: also every lock operation of the environment is a schedule
+	// point (interleavings inside the interpreter's own bookkeeping, e.g. between
+	// the binding of two parameters of one invocation)
+	LockPoints bool `json:"lockpoints,omitempty"`
 }
 
 func render(v interface{}) string {
@@ -126,6 +130,55 @@ func pipelines(thorough bool) []program {
 			}
 		}
 	}
+	// relay form `dst <- src` (receive and send in one statement) between channels
+	// of equal and of different element types: the value must be converted
+	relays := []struct {
+		from, to string
+		items    []string
+		expect   []interface{}
+	}{
+		{"int64", "int64", []string{"1", "2"}, []interface{}{int64(1), int64(2)}},
+		{"int64", "float64", []string{"1", "2"}, []interface{}{float64(1), float64(2)}},
+		{"float64", "int64", []string{"1.5", "2"}, []interface{}{int64(1), int64(2)}},
+		{"interface", "int64", []string{"1", "2.7"}, []interface{}{int64(1), int64(2)}},
+		{"int64", "interface", []string{"1", "2"}, []interface{}{int64(1), int64(2)}},
+	}
+	for _, rl := range relays {
+		for _, c := range caps {
+			for _, dbl := range []bool{false, true} {
+				mid := "c1 <- c0"
+				if dbl {
+					mid = "c1 <- <-c0"
+				}
+				src := fmt.Sprintf("c0 = make(chan %s, %d)\nc1 = make(chan %s, %d)\n", rl.from, c, rl.to, c) +
+					fmt.Sprintf("go func() { for v in [%s] { c0 <- v }; close(c0) }()\n", strings.Join(rl.items, ", ")) +
+					fmt.Sprintf("go func() { for i = 0; i < %d; i++ { %s }; close(c1) }()\n", len(rl.items), mid) +
+					"r = []\nfor v in c1 { r += v }\nr\n"
+				ps = append(ps, program{Name: fmt.Sprintf("relay/%s-%s/cap%d/dbl%v", rl.from, rl.to, c, dbl), Src: src, Expect: render(rl.expect), Bound: b2, Stages: 2})
+			}
+		}
+	}
+	// the same function value entered from two goroutines at once: invocations
+	// must not share argument storage (explored at lock granularity)
+	for _, np := range []int{1, 2, 4, 5} {
+		params := []string{"a", "b", "c", "d", "e"}[:np]
+		sum := strings.Join(params, " + ")
+		args1 := strings.Join([]string{"1", "2", "3", "4", "5"}[:np], ", ")
+		args2 := strings.Join([]string{"10", "20", "30", "40", "50"}[:np], ", ")
+		w1, w2 := []int64{1, 3, 0, 10, 15}[np-1], []int64{10, 30, 0, 100, 150}[np-1]
+		src := "out = make(chan interface, 2)\n" +
+			fmt.Sprintf("func add(%s) { return %s }\n", strings.Join(params, ", "), sum) +
+			fmt.Sprintf("go func() { out <- add(%s) }()\n", args1) +
+			fmt.Sprintf("go func() { out <- add(%s) }()\n", args2) +
+			"x = <-out\ny = <-out\nif x > y { [y, x] } else { [x, y] }\n"
+		ps = append(ps, program{Name: fmt.Sprintf("shared-func/params%d", np), Src: src, Expect: render([]interface{}{w1, w2}), Bound: 2, Stages: 1, LockPoints: true})
+		src2 := "out = make(chan interface, 2)\n" +
+			fmt.Sprintf("func stage(%s) { out <- %s }\n", strings.Join(params, ", "), sum) +
+			fmt.Sprintf("go stage(%s)\n", args1) +
+			fmt.Sprintf("go stage(%s)\n", args2) +
+			"x = <-out\ny = <-out\nif x > y { [y, x] } else { [x, y] }\n"
+		ps = append(ps, program{Name: fmt.Sprintf("shared-go-func/params%d", np), Src: src2, Expect: render([]interface{}{w1, w2}), Bound: 2, Stages: 1, LockPoints: true})
+	}
 	// fan-in of two producers; a closer goroutine closes after both are done
 	for _, c := range caps {
 		for n := 1; n <= 2; n++ {
@@ -166,6 +219,15 @@ func facts() []program {
 }
 
 func newEnv() *env.Env { return env.NewEnv() }
+
+func cfgFor(p program, record bool) vmrun.Config {
+	cfg := vmrun.Config{Fuel: 600, MaxSteps: 4000, Record: record}
+	if p.LockPoints {
+		cfg.MaxSteps = 20000
+		cfg.Setup = func(s *sched.Sched, ctx *stepctx.Ctx) { s.LockPoints = true }
+	}
+	return cfg
+}
 
 // check evaluates one outcome; returns "" when fine.
 func check(p program, o vmrun.Outcome) (class, detail string) {
@@ -291,7 +353,7 @@ func run(c *common.Ctx) *common.Result {
 		completed := -1
 		for _, bound := range bounds {
 			st := explore.DFS(explore.Options{Bound: bound, MaxExecs: 3000000, Deadline: c.Deadline}, func(r *explore.Run) bool {
-				o := vmrun.Run(stmt, newEnv(), r, vmrun.Config{Fuel: 600, MaxSteps: 4000})
+				o := vmrun.Run(stmt, newEnv(), r, cfgFor(p, false))
 				res.Add("transitions", int64(o.Steps))
 				if r.Err != nil {
 					res.Note("replay divergence in " + p.Name + ": " + r.Err.Error())
@@ -385,7 +447,7 @@ func replay(c *common.Ctx, path string) int {
 	bad := false
 	for round := 0; round < 2; round++ {
 		r := &explore.Run{Prefix: rd.Choices}
-		o := vmrun.Run(stmt, newEnv(), r, vmrun.Config{Fuel: 600, MaxSteps: 4000, Record: true})
+		o := vmrun.Run(stmt, newEnv(), r, cfgFor(rd.Program, true))
 		if r.Err != nil {
 			fmt.Println("replay diverged:", r.Err)
 			return 2
